@@ -319,6 +319,33 @@ C10_FATAL = {"refresh_shares:ok", "refresh_shares:pkp", "refresh_shares:shares",
              "dkg1:ok", "dkg2:ok", "dkg3:ok", "dkg3:kp", "dkg3:pkp", "sign:ok", "aggregate:ok", "aggregate:culprits",
              "verify:ok", "*:panic"}
 
+# ------------------------------------------------------------------------ C11
+C11_INV = ["InvDeltaSum", "InvRepairOk", "InvRepaired", "InvRefused", "InvSignOk", "InvSchnorr", "Emit"]
+
+
+def c11_slices(tier):
+    th = tier == "thorough"
+    base = dict(RandChoices="{1}", Msg="<<104,105>>", DomH3="{2,5}", DomH1="{1,5}", DomH2="{3}", EMIT="TRUE")
+    sl = []
+    # A: every helper set and target (existing or new), all keys/polynomials, two blinding values
+    sl.append(dict(name="A_sets_values", module="C11", invariants=C11_INV, consts=consts(
+        7, Shapes="{<<3,2>>, <<4,2>>}" if th else "{<<3,2>>}", IdSets="{{2,3,5}, {1,2,4,6}}", KeyChoices="1..6" if th else "{1,3,6}",
+        CoeffChoices=ZQ(7), DeltaChoices="{0,4}", NewIds="{1,6}", Scenarios='{"ok","bad"}', MaxExtraH="2", **base)))
+    # B: every blinding value
+    sl.append(dict(name="B_blinding", module="C11", invariants=C11_INV, consts=consts(
+        7, Shapes="{<<3,2>>, <<3,3>>}" if th else "{<<3,2>>}", IdSets="{{2,3,5}}", KeyChoices="{3}", CoeffChoices="{5}",
+        DeltaChoices=ZQ(7), NewIds="{1,6}", Scenarios='{"ok"}', MaxExtraH="0", **dict(base, DomH3="{2}", DomH1="{5}"))))
+    # C: shape slice: |H| = t+1, t = 3 and 4, n = 5
+    sl.append(dict(name="C_shape_n5", module="C11", invariants=C11_INV, consts=consts(
+        11, Shapes="{<<5,3>>, <<5,4>>}" if th else "{<<5,3>>}", IdSets="{{1,2,3,4,5}, {1,3,6,8,10}}", KeyChoices="{7}",
+        CoeffChoices="{3}", DeltaChoices="{4}", NewIds="{9}", Scenarios='{"ok","bad"}', MaxExtraH="2",
+        **dict(base, DomH3="{4}", DomH1="{3}"))))
+    return sl
+
+
+C11_FATAL = {"repair1:ok", "repair2:ok", "repair3:ok", "repair1:deltas", "repair2:sigma", "repair3:id", "repair3:share",
+             "repair3:vs", "repair3:vk", "repair3:min", "sign:ok", "aggregate:ok", "verify:ok", "*:panic"}
+
 PROPS = {
     "C01": dict(slices=c01_slices, fatal=C01_FATAL, level="model_checking",
                 rule="TLC enumerates every behaviour of the C01 schedule within each slice's constants; "
@@ -363,6 +390,11 @@ PROPS = {
     "C10": dict(slices=c10_slices, fatal=C10_FATAL, level="model_checking",
                 rule="dealer keys, then one or two refreshes (trusted dealer / distributed) of every remaining set, then a "
                      "signing attempt with every assignment of stale/fresh shares; rejected-refresh scenarios; replayed on the real library",
+                assumptions=["TLC 1.8.0 and the CommunityModules", "the toy ciphersuite and interpreter in /verif/harness",
+                             "the toy-to-real argument of DESIGN 6.2"]),
+    "C11": dict(slices=c11_slices, fatal=C11_FATAL, level="model_checking",
+                rule="every helper set with t <= |H|, every repaired identifier (existing outside H, or new), all keys and "
+                     "polynomials in the value slice, every blinding value in slice B; refused helper lists; replayed on the real library",
                 assumptions=["TLC 1.8.0 and the CommunityModules", "the toy ciphersuite and interpreter in /verif/harness",
                              "the toy-to-real argument of DESIGN 6.2"]),
     "C04": dict(slices=c04_slices, fatal=C04_FATAL, level="model_checking",
